@@ -1,6 +1,8 @@
 package sym
 
 import (
+	"fmt"
+	"os"
 	"sync"
 
 	"golang.org/x/tools/go/ssa"
@@ -90,6 +92,54 @@ func ipdoms(fn *ssa.Function) map[*ssa.BasicBlock]*ssa.BasicBlock {
 	return res
 }
 
+// joinPoint: block where the branches of the If ending block b rejoin. The immediate post-dominator if there
+// is one; otherwise (error-return blocks inside a branch destroy post-dominance) the dominator-tree child of b
+// with at least two predecessors that both successors can reach (the "if.done" block of a structured if).
+func joinPoint(fn *ssa.Function, b *ssa.BasicBlock) *ssa.BasicBlock {
+	if j := ipdoms(fn)[b]; j != nil {
+		return j
+	}
+	if len(b.Succs) != 2 {
+		return nil
+	}
+	var cand *ssa.BasicBlock
+	for _, c := range b.Dominees() {
+		if len(c.Preds) < 2 {
+			continue
+		}
+		if !reaches(b.Succs[0], c, b) || !reaches(b.Succs[1], c, b) {
+			continue
+		}
+		if cand != nil {
+			return nil
+		}
+		cand = c
+	}
+	return cand
+}
+
+// reaches: is `to` reachable from `from` without passing through `avoid`?
+func reaches(from, to, avoid *ssa.BasicBlock) bool {
+	seen := map[*ssa.BasicBlock]bool{}
+	var st []*ssa.BasicBlock
+	st = append(st, from)
+	for len(st) > 0 {
+		n := st[len(st)-1]
+		st = st[:len(st)-1]
+		if n == to {
+			return true
+		}
+		if seen[n] || n == avoid {
+			continue
+		}
+		seen[n] = true
+		st = append(st, n.Succs...)
+	}
+	return false
+}
+
+var debugMerge = os.Getenv("VERIF_DEBUG") != ""
+
 type stopRec struct {
 	J       *ssa.BasicBlock
 	collect func(st *State, fr *Frame, prev *ssa.BasicBlock)
@@ -170,6 +220,26 @@ func sameValue(a, b Value) bool {
 	case Opaque:
 		_, ok := b.(Opaque)
 		return ok
+	case IfaceV:
+		y, ok := b.(IfaceV)
+		return ok && x.Nil == y.Nil && x.Dyn == y.Dyn && sameValue(x.V, y.V)
+	case TupleV:
+		y, ok := b.(TupleV)
+		if !ok || len(x.V) != len(y.V) {
+			return false
+		}
+		for i := range x.V {
+			if !sameValue(x.V[i], y.V[i]) {
+				return false
+			}
+		}
+		return true
+	case FuncV:
+		y, ok := b.(FuncV)
+		return ok && x.Name == y.Name && x.Fn == y.Fn
+	case *rangeIter:
+		y, ok := b.(*rangeIter)
+		return ok && x == y
 	}
 	return false
 }
@@ -196,14 +266,23 @@ func sameContent(a, b Content) bool {
 	case *CTab:
 		y, ok := b.(*CTab)
 		return ok && x == y
-	case CStore:
-		y, ok := b.(CStore)
+	case *CStore:
+		y, ok := b.(*CStore)
+		if ok && x == y {
+			return true
+		}
 		return ok && x.I == y.I && x.V == y.V && sameContent(x.B, y.B)
-	case CCopy:
-		y, ok := b.(CCopy)
+	case *CCopy:
+		y, ok := b.(*CCopy)
+		if ok && x == y {
+			return true
+		}
 		return ok && x.DOff == y.DOff && x.SOff == y.SOff && x.N == y.N && sameContent(x.B, y.B) && sameContent(x.Src, y.Src)
-	case CIte:
-		y, ok := b.(CIte)
+	case *CIte:
+		y, ok := b.(*CIte)
+		if ok && x == y {
+			return true
+		}
 		return ok && x.C == y.C && sameContent(x.A, y.A) && sameContent(x.B, y.B)
 	case CHex:
 		y, ok := b.(CHex)
@@ -248,6 +327,9 @@ func (fx *FnExec) mergeResults(orig *Frame, base int, rs []mergeRes, J *ssa.Basi
 	st := &State{Heap: map[*Object]Value{}, Ghost: map[string]*Term{}}
 	st.PC = append([]*Term(nil), rs[0].st.PC[:base]...)
 	st.Assume(Or(conds...))
+	// byte slices that point to different freshly allocated arrays in different branches (e.g. a buffer that was
+	// appended to in one branch only) are re-based onto one merged array so that the states can be joined
+	fx.unifySlices(rs, conds)
 	// heap
 	objs := map[*Object]bool{}
 	for _, r := range rs {
@@ -266,6 +348,12 @@ func (fx *FnExec) mergeResults(orig *Frame, base int, rs []mergeRes, J *ssa.Basi
 		}
 		v, ok := mergeVals(cs, vs)
 		if !ok {
+			if debugMerge {
+				fmt.Printf("merge fail in %s at b%d: heap object %s (%T)\n", orig.Fn.Name(), J.Index, o.Name, vs[0])
+			}
+			if debugMerge {
+				fmt.Printf("merge fail site 1 in %s\n", orig.Fn.Name())
+			}
 			return nil, nil, false
 		}
 		st.Heap[o] = v
@@ -288,6 +376,9 @@ func (fx *FnExec) mergeResults(orig *Frame, base int, rs []mergeRes, J *ssa.Basi
 		}
 		v, ok := mergeVals(conds, vs)
 		if !ok {
+			if debugMerge {
+				fmt.Printf("merge fail site 2 in %s\n", orig.Fn.Name())
+			}
 			return nil, nil, false
 		}
 		st.Ghost[k] = v.(Scalar).T
@@ -320,6 +411,9 @@ func (fx *FnExec) mergeResults(orig *Frame, base int, rs []mergeRes, J *ssa.Basi
 				}
 			}
 			if !same {
+				if debugMerge {
+					fmt.Printf("merge fail site 3 in %s\n", orig.Fn.Name())
+				}
 				return nil, nil, false
 			}
 			fr.Env[key] = it
@@ -328,6 +422,12 @@ func (fx *FnExec) mergeResults(orig *Frame, base int, rs []mergeRes, J *ssa.Basi
 		v, ok := mergeVals(conds, vs)
 		if !ok {
 			// value not mergeable: only a problem if used later; be conservative
+			if debugMerge {
+				fmt.Printf("merge fail in %s at b%d: env %s (%T)\n", orig.Fn.Name(), J.Index, key.Name(), vs[0])
+			}
+			if debugMerge {
+				fmt.Printf("merge fail site 4 in %s\n", orig.Fn.Name())
+			}
 			return nil, nil, false
 		}
 		fr.Env[key] = v
@@ -350,10 +450,16 @@ func (fx *FnExec) mergeResults(orig *Frame, base int, rs []mergeRes, J *ssa.Basi
 			continue
 		}
 		if _, isIter := ov.(*rangeIter); isIter {
+			if debugMerge {
+				fmt.Printf("merge fail site 5 in %s\n", orig.Fn.Name())
+			}
 			return nil, nil, false
 		}
 		v, ok := mergeVals(conds, vs)
 		if !ok {
+			if debugMerge {
+				fmt.Printf("merge fail site 6 in %s\n", orig.Fn.Name())
+			}
 			return nil, nil, false
 		}
 		fr.Env[key] = v
@@ -375,6 +481,9 @@ func (fx *FnExec) mergeResults(orig *Frame, base int, rs []mergeRes, J *ssa.Basi
 		}
 		v, ok := mergeVals(conds, vs)
 		if !ok {
+			if debugMerge {
+				fmt.Printf("merge fail site 7 in %s\n", orig.Fn.Name())
+			}
 			return nil, nil, false
 		}
 		fr.Env[p] = v
@@ -390,4 +499,66 @@ func (fx *FnExec) mergeResults(orig *Frame, base int, rs []mergeRes, J *ssa.Basi
 		}
 	}
 	return st, fr, true
+}
+
+// unifySlices rewrites, in all results, slice values found at the same heap location that refer to different
+// fresh byte arrays, to a common new object whose content is the guarded choice of the originals.
+func (fx *FnExec) unifySlices(rs []mergeRes, conds []*Term) {
+	if len(rs) != 2 {
+		return
+	}
+	type loc struct {
+		o *Object
+		p string
+	}
+	var walk func(v0, v1 Value, path Path, o *Object)
+	fix := func(o *Object, path Path, s0, s1 SliceV) {
+		if s0.Obj == nil || s1.Obj == nil || s0.Obj == s1.Obj {
+			return
+		}
+		if s0.Obj.Prov != ProvFresh || s1.Obj.Prov != ProvFresh || len(s0.Path) != 0 || len(s1.Path) != 0 {
+			return
+		}
+		a0, ok0 := rs[0].st.Heap[s0.Obj].(ArrV)
+		a1, ok1 := rs[1].st.Heap[s1.Obj].(ArrV)
+		if !ok0 || !ok1 || a0.EW != a1.EW {
+			return
+		}
+		c := conds[0]
+		rebase := func(a ArrV, s SliceV) Content {
+			if s.Off.IsConst() && s.Off.Val == 0 {
+				return a.C
+			}
+			return CopyC(CZero{a.EW}, BV64(0), a.C, s.Off, s.Cap)
+		}
+		no := fx.Cx.NewObj(s0.Obj.Name, s0.Obj.Typ, ProvFresh)
+		nv := ArrV{EW: a0.EW, Len: Ite(c, s0.Cap, s1.Cap), C: IteC(c, rebase(a0, s0), rebase(a1, s1))}
+		for i, r := range rs {
+			s := []SliceV{s0, s1}[i]
+			r.st.Heap[no] = nv
+			ns := SliceV{Nil: s.Nil, Obj: no, Off: BV64(0), Len: s.Len, Cap: s.Cap}
+			r.st.Heap[o] = fx.writePath(r.st.Heap[o], path, ns)
+		}
+	}
+	walk = func(v0, v1 Value, path Path, o *Object) {
+		switch x := v0.(type) {
+		case SliceV:
+			if y, ok := v1.(SliceV); ok {
+				fix(o, path, x, y)
+			}
+		case StructV:
+			y, ok := v1.(StructV)
+			if !ok || len(x.F) != len(y.F) {
+				return
+			}
+			for i := range x.F {
+				walk(x.F[i], y.F[i], append(append(Path(nil), path...), PathEl{Field: i}), o)
+			}
+		}
+	}
+	for o, v0 := range rs[0].st.Heap {
+		if v1, ok := rs[1].st.Heap[o]; ok {
+			walk(v0, v1, nil, o)
+		}
+	}
 }
